@@ -167,11 +167,11 @@ def derived_params(draw, states, params, n):
 
 @st.composite
 def general_model(draw, max_states=5, max_params=5, max_events=5, min_events=0, allow_odes=True,
-                  allow_derived=True, kinds="TBD", min_params=1, allow_range=True, min_states=1):
+                  allow_derived=True, kinds="TBD", min_params=1, allow_range=True, min_states=1, state_pool=None):
     """Unconstrained model of C01/C03/C12/C13 (positive rates, arbitrary growth)."""
     n_s = draw(st.integers(min_states, max_states))
     n_p = draw(st.integers(min_params, max_params))
-    decl = draw(state_decl(n_s, allow_range=allow_range))
+    decl = draw(state_decl(n_s, pool=state_pool, allow_range=allow_range))
     states = []
     for d in decl:
         states += d["names"] if "range" in d else [d["name"]]
